@@ -529,7 +529,7 @@ def check_C11(replay=None):
 def check_C12(replay=None):
     return _run_family("C12", DBG_RULE % "histories of execution, move, goto, eval and self-modifying stores followed by reset (repeated, and followed by a complete run); after reset the full 65,536-word state must equal the load state",
                        DBG_ASSUME, _dbg_jobs("reset", extra=[("scn", ["--mode", "scenario"])]), replay, mc=_mc_dbg("mut"),
-                       replay_b=lambda th: ("Gen_Debugger.cfg", 1 if th else 2))
+                       replay_b=lambda th: ("Gen_Debugger.cfg", 1 if th else 2), extra_fn=lambda chk, th: _env_events(chk, {"lastcmd"}))
 
 
 def check_C13(replay=None):
@@ -545,7 +545,60 @@ def check_C15(replay=None):
 def check_C16(replay=None):
     return _run_family("C16", DBG_RULE % "every resuming command issued at PC = 0xFFFF, below the origin, at/above 0xFE00 and parked on HALT (reached by computed jumps, goto, eval jmp), followed by end of input; the run-loop iteration count is bounded by executed instructions + consumed commands (ProgressBound) and the step budget must never be exhausted",
                        DBG_ASSUME, _dbg_jobs("progress", enum_len=2, extra=[("scn", ["--mode", "scenario"])]), replay, mc=_mc_dbg("live"),
-                       replay_b=lambda th: ("Gen_Debugger_pure.cfg", 1))
+                       replay_b=lambda th: ("Gen_Debugger_pure.cfg", 1), extra_fn=_c16_cli_ends)
+
+
+def _c16_cli_ends(chk, thorough):
+    """The real binary, finite scripts, and command streams that END in unusual ways (or cannot be read at all): the session must end."""
+    vlib.build(need_cli=True)
+    d = _wpath("c16_cli")
+    _shutil.rmtree(d, ignore_errors=True)
+    os.makedirs(d)
+    src = os.path.join(d, "p.asm")
+    open(src, "w").write("and r0 r0 #0\nloop add r0 r0 #1\nadd r1 r0 #-5\nbrn loop\nhalt\n")
+    events = []
+    streams = {"devnull": lambda: open("/dev/null", "rb"), "directory": lambda: os.open(d, os.O_RDONLY), "closed": lambda: None,
+               "empty-file": lambda: open(os.path.join(d, "empty"), "w+b"), "no-newline": lambda: _tmpfile(d, b"step;r"), "cr-only": lambda: _tmpfile(d, b"step\rstep\r"),
+               "nul": lambda: _tmpfile(d, b"step\x00\nr\n")}
+    for tag, mk in streams.items():
+        for script in (["--command", "step;print r0"], ["--command", "c"], []):
+            fh = mk()
+            try:
+                kw = {"stdin": fh} if fh is not None else {"stdin": _sp.DEVNULL, "close_fds": True}
+                if tag == "closed":
+                    kw = {"preexec_fn": lambda: os.close(0)}
+                p = _sp.Popen([vlib.LACE_BIN, "debug", "--minimal", src] + script, stdout=_sp.PIPE, stderr=_sp.PIPE, cwd=d, **kw)
+                try:
+                    p.communicate(timeout=60)
+                    ended = True
+                except _sp.TimeoutExpired:
+                    p.kill()
+                    p.communicate()
+                    # a loaded machine must not turn into a verdict: once more with a long limit
+                    p = _sp.Popen([vlib.LACE_BIN, "debug", "--minimal", src] + script, stdout=_sp.PIPE, stderr=_sp.PIPE, cwd=d, **({"stdin": mk()} if tag != "closed" else kw))
+                    try:
+                        p.communicate(timeout=180)
+                        ended = True
+                    except _sp.TimeoutExpired:
+                        p.kill()
+                        p.communicate()
+                        ended = False
+            finally:
+                if isinstance(fh, int):
+                    os.close(fh)
+                elif fh is not None:
+                    fh.close()
+            events.append({"ev": "ends", "tag": "%s:%s" % (tag, " ".join(script[1:]) or "stdin-only"), "ended": ended})
+    _cli_validate(chk, events, "ends")
+    _shutil.rmtree(d, ignore_errors=True)
+
+
+def _tmpfile(d, data):
+    import tempfile
+    f = tempfile.TemporaryFile(dir=d)
+    f.write(data)
+    f.seek(0)
+    return f
 
 
 # --------------------------------------------------------------------------------------------
@@ -653,6 +706,16 @@ def _env_events(chk, kinds, n=6):
         for v in ["stack", "stack,", ",stack", ",,stack,,", "", ","]:
             code, out, err = vlib.run_lace(["run", "--minimal", "-f", v, src])
             events.append({"ev": "featrun", "tag": "-f " + v, "value": vlib.chars(v), "code": code})
+    if "lastcmd" in kinds:
+        # the last command of a script on stdin counts whether or not a line break follows it
+        src = os.path.join(d, "last.asm")
+        open(src, "w").write("putn\nhalt\n")
+        for k, (body, last) in enumerate([("move r0 5\n", "reset"), ("move r0 5\n", "z"), ("", "move r0 7"), ("move r0 5;", "reset"), ("move r0 5\nreset\n", "move r0 9"),
+                                          ("move r0 5\n", "eval add r0 r0 #1"), ("move r0 5\n", "goto x3001")]):
+            a = vlib.run_lace(["debug", "--minimal", src], stdin=(body + last + "\n").encode())
+            b = vlib.run_lace(["debug", "--minimal", src], stdin=(body + last).encode())
+            view = lambda r: [r[0], _norm_out(r[1], [src]).replace("\n", ""), []]
+            events.append({"ev": "xport", "tag": "last%d" % k, "arg": view(a), "stdin": view(b), "script": body + last, "src": "putn halt"})
     if "xport" in kinds:
         events += _xport_events(chk, n, chk.seed + 11)
     _cli_validate(chk, events, "env")
@@ -947,7 +1010,7 @@ def _watch_smoke(chk):
     """Drive a real `lace watch`: rewrite the watched file and look at what each re-check prints."""
     import select
     import time as _t
-    d = _wpath("c07_watch")
+    d = _wpath("%s_watch" % chk.pid.lower())
     _shutil.rmtree(d, ignore_errors=True)
     os.makedirs(d)
     f = os.path.join(d, "w.asm")
@@ -984,7 +1047,12 @@ def _watch_smoke(chk):
               ("undefined", "far halt\nm ld r0 nowhere\n", False, []),
               ("ok2", "far lea r0 m\nputs\nhalt\nm .stringz \"x\"\n", True, []),
               ("lexerr", "far halt\nm .strngz \"x\"\n", False, []),
-              ("ok3", "far halt\nm halt\n", True, [])]
+              ("ok3", "far halt\nm halt\n", True, []),
+              # the same warning must come every time (a negative .blkw count is accepted with a warning)
+              # (valid = None: the verdict of a fresh `lace check` is taken as the reference for these)
+              ("warn1", "far halt\nm .blkw #-3\n", None, []),
+              ("warn2", ".blkw #-3\nm halt\n", None, []),
+              ("warn3", "far halt\nm .blkw #-3\n.blkw #-2\n", None, [])]
     events = []
     for flags, extra in (([], [("stack-off", "far halt\npush r1\n", False, []), ("ok4", "far halt\n", True, [])]), (["-f", "stack"], [("stack-on", "far halt\nm push r1\n", True, []), ("ok4", "m halt\n", True, [])])):
         put("halt\n")
@@ -1006,7 +1074,16 @@ def _watch_smoke(chk):
                         seen = "success"
                     elif b"\xc3\x97" in seg or b"Error" in seg:
                         seen = "error"
-                events.append({"ev": "watch", "tag": name + ("+stack" if flags else ""), "valid": valid, "seen": seen, "exited": p.poll() is not None})
+                # what a fresh `lace check` of the same text prints, as far as warnings go
+                nwarn = -1
+                for seg in buf.split(b"Re-checking")[1:]:
+                    if b"no errors found" in seg or b"\xc3\x97" in seg or b"Error" in seg:
+                        nwarn = seg.count(b"\xe2\x9a\xa0")
+                fresh = vlib.run_lace(["check"] + flags + [f])
+                if valid is None:
+                    valid = fresh[0] == 0
+                events.append({"ev": "watch", "tag": name + ("+stack" if flags else ""), "valid": valid, "seen": seen, "exited": p.poll() is not None,
+                               "warnings": nwarn, "fresh_warnings": (fresh[1] + fresh[2]).count(b"\xe2\x9a\xa0"), "fresh_ok": fresh[0] == 0})
         finally:
             p.kill()
             p.wait()
@@ -1353,6 +1430,31 @@ def check_C18(replay=None):
     for v in ["stack", "stack,", ",stack", ",,stack,,", "stack,stack", "foo", "", ",", "Stack", "stack,foo", "stac", "stack ", "stack,,stack"]:
         code, out, err = vlib.run_lace(["check", "-f", v, src])
         events.append({"ev": "featarg", "tag": v, "value": vlib.chars(v), "code": code})
+    # opcode 0xD without the flag, reached while stdout is a pipe whose reader has left and output is still pending: still exit 1, naming the feature
+    psrc = os.path.join(d, "pipe.asm")
+    open(psrc, "w").write("and r0 r0 #0\nadd r0 r0 #7\nputn\ngetc\n.fill xD440\nhalt\n")
+    for variant in ("reader-gone", "reader-present"):
+        p = _sp.Popen([vlib.LACE_BIN, "run", "--minimal", psrc], stdin=_sp.PIPE, stdout=_sp.PIPE, stderr=_sp.PIPE)
+        buf = b""
+        while b"Running" not in buf:
+            ch = p.stdout.read(1)
+            if not ch:
+                break
+            buf += ch
+        if variant == "reader-gone":
+            p.stdout.close()
+        try:
+            p.stdin.write(b"k")
+            p.stdin.close()
+        except OSError:
+            pass
+        try:
+            p.wait(timeout=120)
+        except _sp.TimeoutExpired:
+            p.kill()
+            p.wait()
+        err = p.stderr.read()
+        events.append({"ev": "gate_run", "tag": "raw-0xD:" + variant, "code": p.returncode, "names": b"stack" in err})
     _cli_validate(chk, events, "gate")
     # the gate at the level of the raw token stream, both flag values
     _lex_run(chk, [("gate%d" % f, ["--mode", "chunks", "--len", 3, "--stride", 4 if thorough else 16, "--phase", chk.seed + f, "--stack", f]) for f in (0, 1)])
@@ -1516,6 +1618,9 @@ def check_C19(replay=None):
     chk.transitions += sanity["generated"]
     jobs = [("sess%d" % k, ["--fam", "session", "--n", 200 * SCALE if thorough else 40, "--seed", chk.seed * 3 + k, "--stack", 1 if k != 1 else 0]) for k in range(4)]
     traces = _asm_jobs_run(chk, jobs)
+    # "... every re-check of `lace watch` equivalent to a fresh `lace check`": one real watch session (verdict and warnings of every re-check)
+    vlib.build(need_cli=True)
+    _cli_validate(chk, _watch_smoke(chk), "watch")
     chk.distinct = max(chk.distinct, 2)
     chk.samples = [_slim(e) for e in vlib.sample_lines(traces[0], 2)]
     for t in traces:
@@ -1533,7 +1638,43 @@ def check_C17(replay=None):
                        "from origin-1 to one past the image, and `goto L`, `assembly`, `print L+1`, `assembly L-1`, `break add L` for every label; Trace_Debug.tla requires the printed text to be exactly the statement text the "
                        "renderer wrote for that word (nothing for addresses without statement) and every label to resolve to origin + Assembler line - 1 (+ offset). distinct = sessions",
                        DBG_ASSUME + ["statement texts are the renderer's record of what it wrote: mnemonic/directive through last operand"], jobs, replay,
-                       mc=lambda th: [("MC_Assembler", "MC_Assembler.cfg")])
+                       mc=lambda th: [("MC_Assembler", "MC_Assembler.cfg")], extra_fn=_c17_bptable)
+
+
+def _c17_bptable(chk, thorough):
+    """The breakpoint table (`break list` without --minimal) of the real binary: one row per breakpoint, showing the statement's text."""
+    vlib.build(need_cli=True)
+    d = _wpath("c17_bpt")
+    _shutil.rmtree(d, ignore_errors=True)
+    os.makedirs(d)
+    texts = ['add r0, r0, #1', 'halt', '.stringz "abc"', '.stringz "h\u00e9llo w\u00f6rld \u2713\u2713\u2713"', '.stringz "' + "\u00e9" * 16 + '"', '.stringz "' + "\u00e9" * 17 + '"',
+             '.stringz "' + "x" * 15 + '"', '.stringz "' + "x" * 16 + '"', '.stringz "' + "x" * 17 + '"', '.fill x1234', 'ld r1, some_long_label_name_here_x', '.blkw #3',
+             '.stringz "\U0001F600\U0001F600\U0001F600\U0001F600\U0001F600\U0001F600"', 'and r1,r1,#0', '.stringz "\u2713 a \u2713 b \u2713 c \u2713 d"']
+    events = []
+    for k in range(3):
+        picked = texts[k::3]
+        lines, stmts, addr = [".orig x3000"], [], 0x3000
+        for i, t in enumerate(picked):
+            lines.append(".break")
+            lines.append("l%d %s ; c%d" % (i, t, i))
+            stmts.append([addr, vlib.chars(t)])
+            if t.startswith(".stringz"):
+                addr += len(t[len('.stringz "'):-1]) + 1
+            elif t.startswith(".blkw"):
+                addr += 3
+            else:
+                addr += 1
+        lines.append("some_long_label_name_here_x halt")
+        src = os.path.join(d, "t%d.asm" % k)
+        open(src, "w").write("\n".join(lines) + "\n")
+        code, out, err = vlib.run_lace(["debug", src, "--command", "break list;exit"], env_extra={"NO_COLOR": "1"})
+        text = _re.sub(r"\x1b\[[0-9;]*m", "", (out + err).decode("utf-8", "replace"))
+        rows = []
+        for m in _re.finditer(r"\u2502 0x([0-9a-f]{4}) +\u2502 (.*?)\u2502 (.*?)\u2502", text):
+            rows.append([int(m.group(1), 16), vlib.chars(m.group(3).rstrip(" "))])
+        events.append({"ev": "bptable", "tag": "t%d" % k, "code": code, "rows": rows, "stmts": stmts, "src": "\n".join(lines)})
+    _cli_validate(chk, events, "bptable")
+    _shutil.rmtree(d, ignore_errors=True)
 
 
 # --------------------------------------------------------------------------------------------
